@@ -39,6 +39,7 @@ PROFILE = {
     "n": (3, 10),
     "p_restart": 0.75,
     "p_mutate": 0.08,
+    "p_driver_keep": 0.15,
     "p_proc2": 0.3,
     "locations": ["package", "package", "package", "main", "notebook"],
 }
